@@ -720,10 +720,11 @@ def check_C11(ctx):
     # need close to, or more than, the library's own step budget must end the same way - a form, or the warning fallback -
     # and not in a RecursionError (a driver that spends a stack frame per step would)
     deep = [e for e in exprs if 80 <= sx.size(e) <= 400][:sizes(tier, 6, 30)]
-    deep += gen.chains(rng, [2, 3], 70)[:4] + gen.chains(rng, [2], 82)[:3]
+    deep += gen.chains(rng, [2, 3], 60) + gen.chains(rng, [2], 70) + (gen.chains(rng, [2], 100) if tier == 'thorough' else [])
     if deep:
         bd = Batch()
-        di = [bd.add('STEPCOUNT %s' % sx.to_sx(e)) for e in deep]
+        # NORM calls the library's own _normalize / _fully_reduce (the step-by-step commands drive the steps themselves)
+        di = [bd.add('NORM %s' % sx.to_sx(e)) for e in deep]
         bd.run(model=False)
         old_env = dict(os.environ)
         os.environ['VERIF_RECLIMIT'] = 'default'
@@ -737,7 +738,8 @@ def check_C11(ctx):
             if hi.startswith(('ERROR', 'PYERR')):
                 continue
             rep.stats['default_recursion_limit_cases'] += 1
-            if 'recursion' in low[k_].lower() and 'recursion' not in hi.lower():
+            rep.stats['default_recursion_limit_beyond_budget'] += hi.startswith('WARN')
+            if low[k_] != hi and ('recursion' in low[k_].lower() or low[k_].startswith(('ERROR', 'PYERR'))):
                 rep.oracle_fail('under the default recursion limit the simplification ends in a RecursionError (%s) where it '
                                 'otherwise ends with %s' % (low[k_][:60], hi[:60]), bd, [i])
     # the form the implementation stops at must be rule-free: ask the model whether a step is still possible
